@@ -34,7 +34,10 @@ def matrix(ctx):
     En4.eLiterals.remove(gone)
     En4.eLiterals.append(E.EEnumLiteral('BACK', value=7))
     dts = [(n, v) for (n, p, t, f, v) in ex.datatype_rows() if n.startswith('ecore.')]
-    types = [('cls:' + k.name, k) for k in K] + [('enum:En1', En1), ('enum:En2', En2), ('enum:En3', En3), ('enum:En4', En4)] + [('dt:' + n, v) for n, v in dts]
+    # features typed by Ecore's own metaclasses (what eSuperTypes, eEnum, eType are): a classifier of another kind is no value
+    metas = [('cls:EClass', E.EClass.eClass), ('cls:EEnum', E.EEnum.eClass), ('cls:EDataType', E.EDataType.eClass),
+             ('cls:EClassifier', E.EClassifier.eClass)]
+    types = [('cls:' + k.name, k) for k in K] + metas + [('enum:En1', En1), ('enum:En2', En2), ('enum:En3', En3), ('enum:En4', En4)] + [('dt:' + n, v) for n, v in dts]
     insts = {k.name: k() for k in K}
     values = [('None', None), ('True', True), ('False', False), ('0', 0), ('1', 1), ('-1', -1), ('2**70', 2 ** 70), ('1.5', 1.5),
               ("'a'", 'a'), ("''", ''), ("'A'", 'A'), ("'SHARED'", 'SHARED'), ("'C'", 'C'), ("'nope'", 'nope'),
@@ -47,10 +50,15 @@ def matrix(ctx):
     values += [('lit:En4.removed', gone), ("'X'", 'X'), ("'OLD'", 'OLD'), ("'NEW'", 'NEW'), ("'GONE'", 'GONE'), ("'BACK'", 'BACK')]
     # metamodel elements are objects too, of their own (meta)classes
     values += [('EClass K4', K[4]), ('EDataType EString', E.EString), ('EEnum En1', En1), ('EAttribute', E.EAttribute('zz', E.EString))]
+    # a proxy nobody has resolved: a reference takes it on trust (not judged), a data type has no such value
+    proxy = E.EProxy(path='nowhere#//', resource=None)
+    values += [('unresolved proxy', proxy)]
 
     def expected(t, v, many):
         if v is None:
             return not many          # None into a many-valued feature is outside the statement: not judged (see below)
+        if v is proxy:
+            return None if isinstance(t, E.EClass) else (not isinstance(t, E.EEnum) and t.eType is object)
         if isinstance(t, E.EClass):
             return isinstance(v, E.EObject) and not isinstance(v, (E.EEnumLiteral,)) and \
                 (v.eClass is t or t in v.eClass.eAllSuperTypes())
@@ -60,34 +68,51 @@ def matrix(ctx):
             return isinstance(v, str) and any(l.name == v for l in t.eLiterals)
         return isinstance(v, t.eType)
 
+    def hashable(x):
+        try:
+            hash(x)
+            return True
+        except TypeError:
+            return False
+
     Holder = E.EClass('Holder')
     feats = {}
     for i, (tn, t) in enumerate(types):
-        for many in (False, True):
-            name = f'f{i}{"m" if many else "s"}'
+        for many in (False, True, 'set'):
+            name = f'f{i}{"m" if many is True else ("u" if many else "s")}'
             if isinstance(t, E.EClass):
-                f = E.EReference(name, t, upper=-1 if many else 1, unique=False)
+                f = E.EReference(name, t, upper=-1 if many else 1, unique=many == 'set')
             else:
-                f = E.EAttribute(name, t, upper=-1 if many else 1, unique=False)
+                f = E.EAttribute(name, t, upper=-1 if many else 1, unique=many == 'set')
             Holder.eStructuralFeatures.append(f)
             feats[(tn, many)] = f
     paths_single = ['attr', 'eSet-name', 'eSet-feature', 'kwargs']
-    paths_many = ['append', 'insert', 'extend', 'iadd', 'assign', 'setitem', 'setslice']
+    paths_many = ['append', 'insert', 'extend', 'iadd', 'assign', 'setitem', 'setslice', 'extend-after-good']
+    paths_set = ['append', 'insert', 'extend', 'iadd', 'assign', 'setitem', 'extend-after-good', 'ior', 'ixor']
     for (tn, t) in types:
         for (vn, v) in values:
-            for many, paths in ((False, paths_single), (True, paths_many)):
+            for many, paths in ((False, paths_single), (True, paths_many), ('set', paths_set)):
                 if v is None and many:
                     continue
+                if many == 'set' and not hashable(v):
+                    continue         # (asking a set about an unhashable value is Python's TypeError)
                 f = feats[(tn, many)]
                 want = expected(t, v, many)
+                if want is None:
+                    continue
                 for path in paths:
                     h = Holder()
                     if many:
                         # one conforming element first, so that item/slice assignment has something to replace
-                        seed = next((x for (_, x) in values if x is not None and expected(t, x, True)), None)
+                        seed = next((x for (_, x) in values if x is not None and x is not v and hashable(x)
+                                     and expected(t, x, True)), None)
                         if seed is None:
                             continue
                         getattr(h, f.name).append(seed)
+                        # a conforming value of the same Python class as the one offered, when there is one: a bulk call
+                        # has to look at every value, not at one per class
+                        good = next((x for (_, x) in values if x is not None and x is not v and x is not seed and hashable(x)
+                                     and type(x) is type(v) and expected(t, x, True)), None)
                     before = list(getattr(h, f.name)) if many else getattr(h, f.name)
                     isset_before = h.eIsSet(f)
                     try:
@@ -113,6 +138,14 @@ def matrix(ctx):
                             getattr(h, f.name)[0] = v
                         elif path == 'setslice':
                             getattr(h, f.name)[0:1] = [v]
+                        elif path == 'extend-after-good':
+                            if good is None:
+                                continue
+                            getattr(h, f.name).extend([good, v])
+                        elif path == 'ior':
+                            c = getattr(h, f.name); c |= ([good, v] if good is not None else [v])
+                        elif path == 'ixor':
+                            c = getattr(h, f.name); c ^= ([good, v] if good is not None else [v])
                         out = 'accepted'
                     except BadValueError:
                         out = 'BadValueError'
@@ -128,13 +161,13 @@ def matrix(ctx):
                     elif not want and out != 'BadValueError':
                         problem = ('not-rejected', f'{tn} <- {vn} via {path}: {out}, feature now {now!r}')
                     elif not want and path != 'kwargs':
-                        same = (len(now) == len(before) and all(a is b or a == b for a, b in zip(now, before))) if many \
-                            else (now is before or now == before)
+                        same = (len(now) == len(before) and all(a is b or (a is not proxy and b is not proxy and a == b) for a, b in zip(now, before))) if many \
+                            else (now is before or (now is not proxy and now == before))
                         if not same or h.eIsSet(f) != isset_before:
                             problem = ('rejected-but-changed', f'{tn} <- {vn} via {path}: {before!r} -> {now!r}')
-                    elif want and out == 'accepted':
+                    elif want and out == 'accepted' and path != 'ixor':     # (^= takes out what is already there)
                         stored = now if many else [now]
-                        if not any(x is v or (x == v and type(x) is type(v)) or
+                        if not any(x is v or (v is not proxy and x is not proxy and x == v and (many == 'set' or type(x) is type(v))) or
                                    (isinstance(t, E.EEnum) and isinstance(v, str) and getattr(x, 'name', x) == v) for x in stored):
                             if not (isinstance(t, E.EEnum)):
                                 problem = ('accepted-not-stored', f'{tn} <- {vn} via {path}: feature now {now!r}')
